@@ -374,7 +374,39 @@ def j2b_fallthrough(ctx):
                 ctx.floor("J2", "%s panicking paths" % fn, n, 1, config=cfg)
 
 
-RULES = [("A", a_audit), ("J2b", j2b_fallthrough), ("RD", rd_reader_total), ("J1", j1_peek_then_next), ("J1b", j1b_preconditions), ("J2", j2_flags), ("J3", j3_config), ("J4", j4_merging), ("J6", j6_just_filled)]
+def j7_output_space(ctx):
+    """The `unreachable!()` for DecoderResult::OutputFull in encoding::decode_into is exempt because "enough space was
+    reserved above": that holds only if the amount handed to String::reserve is the decoder's own worst-case bound for
+    these bytes (reserve counts from the length, so nothing may be subtracted from it)."""
+    for cfg, F in ctx.facts.items():
+        if "encoding" not in F.features:
+            ctx.ob("J7", "decode_into:not-compiled", True, "only with the `encoding` feature", config=cfg)
+            continue
+        b = ctx.body(F, "encoding::decode_into", "J7")
+        if b is None:
+            continue
+        n = 0
+        for p in ctx.paths(b):
+            dec = [c for c in calls(p) if name_is(c[2], "decode_to_string_without_replacement")]
+            if not dec:
+                continue
+            n += 1
+            res = [c for c in calls(p) if name_is(c[2], "reserve", "reserve_exact") and calls(p).index(c) < calls(p).index(dec[0])]
+            bound = [("call", c[1], c[2], c[3]) for c in calls(p) if name_is(c[2], "max_utf8_buffer_length_without_replacement")]
+            ok = len(res) == 1 and len(bound) == 1
+            if ok:
+                amt = strip_wrappers(res[0][3][1])
+                # the reserved amount is the bound itself: unwrap()/expect()/`?` of that call, nothing else
+                while amt[0] == "call" and name_is(amt[2], "unwrap", "expect", "unwrap_or_default") and amt[3]:
+                    amt = strip_wrappers(amt[3][0])
+                t0 = tried(amt)
+                if t0 is not None:
+                    amt = strip_wrappers(t0)
+                ok = amt == bound[0] and has_subterm(bound[0][3][1], lambda s2: s2[0] == "arg" and s2[2] == "bytes") and has_subterm(dec[0][3][1], lambda s2: s2[0] == "arg" and s2[2] == "bytes")
+            ctx.ob("J7", "decode_into:reserved=worst-case", ok, "before decoding, exactly max_utf8_buffer_length_without_replacement(bytes.len()) is reserved on the output string", config=cfg)
+        ctx.floor("J7", "decoding paths of decode_into", n, 1, config=cfg)
+
+RULES = [("A", a_audit), ("J2b", j2b_fallthrough), ("RD", rd_reader_total), ("J1", j1_peek_then_next), ("J1b", j1b_preconditions), ("J2", j2_flags), ("J3", j3_config), ("J4", j4_merging), ("J6", j6_just_filled), ("J7", j7_output_space)]
 
 
 def THOROUGH_EXTRA(ctx):
